@@ -25,7 +25,8 @@ inductive Res where
   | name (n : RName)
   /-- the branches that `return expr` (an `Expr`, not a `str`) -/
   | exprObj
-  /-- the suffix loop ran out of fuel (cannot happen: see `Lemmas.Printer`, fuel = registry size + 1) -/
+  /-- the suffix loop ran out of fuel (fuel = registry size + 1; by pigeonhole the real loop stops earlier —
+  not proved, never observed; the theorems treat this outcome as `no registration`) -/
   | diverge
   deriving DecidableEq, Repr
 
